@@ -298,7 +298,7 @@ def _check_mask_inner(case, ctx):
         ref, _ = _chain(f, m1f, Q, (sgn * s_samp[0], sgn * s_samp[1]))
         errs[sgn] = float(np.abs(T1 - ref).max()) if np.all(np.isfinite(T1)) else float('inf')
     best = min(errs, key=errs.get)
-    ctx.require(errs[best] <= TOL * scale, tag + ':chain' + (':shifted' if shifted else '') + (':nonsquare' if ny != nx else ''),
+    ctx.within(errs[best], TOL * scale, tag + ':chain' + (':shifted' if shifted else '') + (':nonsquare' if ny != nx else ''),
                 'to_fpm_and_back %s mask %s dx_fpm=%.5g shift=%r differs from the textbook chain by %.3g (scale %.3g)' % (
                     shape, case['mshape'], fpm_dx, sh, errs[best], scale))
     # the documented longer return form: (field at the next pupil, field at the mask, field after the mask)
@@ -321,7 +321,7 @@ def _check_mask_inner(case, ctx):
         refF = [_chain(f, m1f, Q, (sgn * s_samp[0], sgn * s_samp[1]))[1] for sgn in ((1, -1) if shifted else (1,))]
         eF = min(float(np.abs(np.abs(parts[1]) - np.abs(rf)).max()) if shifted else float(np.abs(parts[1] - rf).max()) for rf in refF)
         fscale = max(float(np.abs(f).sum()) * dx * fpm_dx / (lam * efl), 1e-300)
-        ctx.require(eF <= TOL * 10 * fscale, tag + ':return_more:at-mask', 'field at the mask differs from the textbook transform by %.3g (scale %.3g)' % (eF, fscale))
+        ctx.within(eF, TOL * 10 * fscale, tag + ':return_more:at-mask', 'field at the mask differs from the textbook transform by %.3g (scale %.3g)' % (eF, fscale))
     if not shifted and via != 'function':
         w = P.Wavefront(f, lam, dx)
         bab = ctx.call(w.babinet, efl, None, m1, fpm_dx, method=method)
@@ -508,7 +508,7 @@ def _check_exec_inner(case, ctx):
         ref = U.ref_dft(a, Q, tuple(out), (sgn * sh[0], sgn * sh[1]), fwd=fwd)
         d = (np.abs(Ta) - np.abs(ref)) if shifted else (Ta - ref)      # with a shift the executors may differ from the sum by a pure phase (see C01)
         errs.append(float(np.abs(d).max()) if np.all(np.isfinite(Ta)) else float('inf'))
-    ctx.require(min(errs) <= TOL * scale * 10, tag + ':vs-textbook' + (':anisotropic' if aniso else ''),
+    ctx.within(min(errs), TOL * scale * 10, tag + ':vs-textbook' + (':anisotropic' if aniso else ''),
                 '%s %s Q=%r ->%s shift=%r differs from the textbook sum by %.3g (scale %.3g)' % (tag, shape, Q, out, sh, min(errs), scale))
 
 
